@@ -1588,12 +1588,20 @@ func (r *Raft) appendEntries(rpc RPC, a *AppendEntriesRequest) {
 	// Update the commit index
 	if a.LeaderCommitIndex > 0 && a.LeaderCommitIndex > r.getCommitIndex() {
 		start := time.Now()
-		idx := min(a.LeaderCommitIndex, r.getLastIndex())
-		r.setCommitIndex(idx)
-		if r.configurations.latestIndex <= idx {
-			r.setCommittedConfiguration(r.configurations.latest, r.configurations.latestIndex)
+		// Only the entries covered by this request are known to match the
+		// leader's log; anything we hold beyond them may be a stale suffix.
+		lastCovered := a.PrevLogEntry
+		if n := len(a.Entries); n > 0 {
+			lastCovered = a.Entries[n-1].Index
 		}
-		r.processLogs(idx, nil)
+		idx := min(a.LeaderCommitIndex, lastCovered)
+		if idx > r.getCommitIndex() {
+			r.setCommitIndex(idx)
+			if r.configurations.latestIndex <= idx {
+				r.setCommittedConfiguration(r.configurations.latest, r.configurations.latestIndex)
+			}
+			r.processLogs(idx, nil)
+		}
 		metrics.MeasureSince([]string{"raft", "rpc", "appendEntries", "processLogs"}, start)
 	}
 
